@@ -256,6 +256,7 @@ def run_cli(cli, files, main="main.oal", base=None, workdir=None, keep=False, pr
     d = workdir or tempfile.mkdtemp(prefix="oalrun-", dir=os.path.join(CACHE, "runs"))
     os.makedirs(d, exist_ok=True)
     for name, text in files.items():
+        os.makedirs(os.path.dirname(os.path.join(d, name)), exist_ok=True)
         with open(os.path.join(d, name), "w", encoding="utf-8") as f:
             f.write(text)
     tgt = os.path.join(d, "out.yaml")
